@@ -257,10 +257,12 @@ R["C17"] = {"harnesses": [
       "8 JSON templates (string, number, mixed array, object, nested object/array, escape-alphabet member name, array of objects, 23-digit integer) with symbolic leaves (numbers d.d / -d / dEd, strings of natoms escape-alphabet atoms, one-letter symbolic names), optionally padded with symbolic whitespace bytes at every structural position: UnmarshalValid -> Marshal / MarshalEscaped(false) read back as the same value; Compact / Indent / HTMLEscape keep value and member order; Indent = Compact re-indented; key lists of UnmarshalWithKeys / UnmarshalValidWithKeys in document order"),
     H("H_Codec_Differential", [{"atommask": 2047}], None, ["codec/differential-end"],
       "fork vs the standard library's encoding/json, BOTH executed from source: Marshal bytes and Unmarshal results for map[string]any, []any, []string, map[string]string, string and a harness-declared struct type with a renamed field, '-', omitempty, ',string', a nested pointer struct, a map field and an embedded struct; string leaves from the escape alphabet, bool symbolic, ints from {0,7,42}"),
+    H("H_Codec_Stream", [{"atommask": 2047}], None, ["codec/stream-end"],
+      "Decoder (UseNumber) over a stream of two values separated by a symbolic whitespace byte, More(), and Encoder with SetEscapeHTML on/off: same decoded values as the standard library's Decoder, one value per line on output, values read back unchanged"),
     H("H_C17_Fold", [{"ns": 2, "nt": 2}, {"ns": 1, "nt": 3}, {"ns": 2, "nt": 4}], [{"ns": 2, "nt": 2}, {"ns": 1, "nt": 3}, {"ns": 2, "nt": 4}, {"ns": 3, "nt": 3}, {"ns": 3, "nt": 5}], ["C17/fold/end"],
       "equalFoldRight, asciiEqualFold, simpleLetterEqualFold vs a reference simple-fold comparison, under their documented preconditions: s = ns unconstrained ASCII bytes, t = nt unconstrained bytes (covers K/U+212A and S/U+017F)")],
     "anchors": ["internal/json.UnmarshalValid", "internal/json.UnmarshalWithKeys", "internal/json.UnmarshalValidWithKeys", "internal/json.Marshal", "internal/json.MarshalEscaped", "internal/json.Compact", "internal/json.compact", "internal/json.Indent", "internal/json.HTMLEscape", "internal/json.equalFoldRight", "internal/json.asciiEqualFold", "internal/json.simpleLetterEqualFold"],
-    "assumptions": ["not covered (stated): run-time generated struct types (reflect.StructOf) - one fixed struct type only; Decoder/Encoder streams; float formatting with symbolic values (ints are concrete)", "reflect is a model (type/value semantics over the interpreter heap), shared by the fork and the standard library codec"],
+    "assumptions": ["not covered (stated): run-time generated struct types (reflect.StructOf) - one fixed struct type only; Decoder.Token and streams of more than two values; float formatting with symbolic values (ints are concrete)", "reflect is a model (type/value semantics over the interpreter heap), shared by the fork and the standard library codec"],
     "outside_bound": ["templates outside the 8 listed, strings longer than 2 atoms, fold operands longer than 3+5 bytes"]}
 
 ORACLE = H("H_Oracle", [{}], None, ["oracle/end"], "oracle self-check (concrete): the reference evaluators reproduce RFC 6902 appendix A, RFC 6901 section 5, RFC 7396 appendix A and an RFC 8259 accept/reject table; a failure makes the run inconclusive")
